@@ -469,6 +469,24 @@ func (e *Engine) intrinsic(name string, fn *ssa.Function, args []Value) (Value, 
 			e.tracef("break-signal %s", ch)
 		}
 		return nil, true
+	case "vFairTicks":
+		e.fairTicks = true
+		return nil, true
+	case "vOnChanEvent": // func(kind int, ch any, v any, ok bool): every send (0) / receive (1) on channels without their own observer
+		e.onChanEvent = args[0].(FuncV)
+		return nil, true
+	case "vCloseChan": // the environment closes a channel the harness only holds a receive end of
+		c := chanOf(args[0])
+		if !c.closed {
+			c.closed = true
+			e.tracef("env-close %s", c)
+		}
+		return nil, true
+	case "vSameChan":
+		return tb.Bool(chanOf(args[0]) == chanOf(args[1])), true
+	case "vSinkWhenFull":
+		e.sinkAll = true
+		return nil, true
 	case "vDecline":
 		e.declined = true
 		return nil, true
